@@ -1053,9 +1053,9 @@ impl<'a> Gen<'a> {
                 ])
             }
             _ => {
-                let t = self.declare(fx, K::Tab);
                 let n = self.rng.below(5) as usize;
                 let items: Vec<Card> = (0..n).map(|_| self.any(fx, 1)).collect();
+                let t = self.declare(fx, K::Tab);
                 self.feat("array");
                 Card::set_var(t, Card::from(CardBody::Array(items)))
             }
@@ -1277,6 +1277,9 @@ pub fn gen(a: &Args) {
         }
         let term = case_term(&m, &host, &obs);
         let id = w.push(term, feats.len() >= 6);
+        if std::env::var("C01_KEEP").is_ok() {
+            let _ = std::fs::copy(&cur, a.out.join(format!("prog_{}.json", id)));
+        }
         if class.starts_with("compile_error") {
             w.note(id, class);
         }
